@@ -703,7 +703,7 @@ def bigmap_extra(rep, work, tier, seed, b):
     """Tilemaps whose pixel extent exceeds 16 bits in one direction (long thin tiles x several hundred tiles) on a tiny canvas:
     tile origins beyond 65535 must stay off canvas, lookups and images must still agree."""
     cases = work.path("g3bigmap.ndjson")
-    gen(b, cases, "bigmap", seed + 53, 8 if tier == "quick" else 80)
+    gen(b, cases, "bigmap", seed + 53, 12 if tier == "quick" else 80)
     res = stage_cases(rep, work, b, cases, "g3-bigmap", shards=4 if tier == "quick" else 8, jvms=8, xmx="6g")
     need_ok(rep, res, "g3-bigmap", 0.99)
 
@@ -1647,7 +1647,7 @@ def c16(rep, work, tier, seed):
     need_ok(rep, res, "load-twice", 0.95)
     # out-of-contract files that still load must load the same way twice as well (e.g. anything resolved by map iteration order)
     hosts = work.path("twice-hosts.ndjson")
-    gen(b, hosts, "tile", seed + 15, 25 if tier == "quick" else 400)
+    gen(b, hosts, "tile", seed + 15, 60 if tier == "quick" else 400)
     inc = work.path("twice-inconsistent.ndjson")
     with open(inc, "w") as f:
         for line in open(hosts):
@@ -1663,7 +1663,7 @@ def c16(rep, work, tier, seed):
     hugec = work.path("relhuge.ndjson")
     gen(b, hugec, "huge", seed + 14, 150 if tier == "quick" else 3000)
     bigm = work.path("relbigmap.ndjson")
-    gen(b, bigm, "bigmap", seed + 16, 8 if tier == "quick" else 80)
+    gen(b, bigm, "bigmap", seed + 16, 12 if tier == "quick" else 80)
     bigc = work.path("relbigcel.ndjson")
     gen(b, bigc, "bigcel", seed + 17, 2 if tier == "quick" else 12)
     with open(cases2, "a") as f:
